@@ -245,6 +245,12 @@ def run(model, col, tier):
     vm = VMModel(model)
     nv = vm.arm("NEW_VARIABLE")
     col.check(any("instruction.Name" in unparse(s) for s in nv.body), "R12.4", f"{VM}::NEW_VARIABLE binds by name", "localScope[instruction.Name] = ...", None, VM, nv.case)
+    # a declaration that re-uses the name of a variable of a finished sibling scope is a new variable: fresh instance, fresh name table
+    from . import c01 as _c01
+    from .. import lowering as _lowering
+
+    _c01.check_new_variable_fresh(col, vm, "R12.4")
+    _lowering.check_scope_tables(model, col, "R12.4")
     for opc in ("LOAD", "STORE"):
         arm = vm.arm(opc)
         t = unparse(ast.Module(body=arm.body, type_ignores=[]))
@@ -269,6 +275,11 @@ def run(model, col, tier):
             col.check(good, "R12.5", f"{CT}::v_{cname} scope pairing", f"push, visit, pop ({seq})",
                       f"typing scope pairing on a path is {seq}; expected push ... visit ... pop"
                       + (": the scope is never popped, every enclosing construct then pops the wrong scope and names stay visible after their block" if seq.count("pop") < seq.count("push") else ""), CT, m)
+        nodep = m.args.args[1].arg
+        byp = [c for c in ast.walk(m) if isinstance(c, ast.Call) and last_attr(c) == "AcceptVisitor" and not (isinstance(c.func.value, ast.Name) and c.func.value.id == nodep)]
+        col.check(not byp, "R12.5", f"{CT}::v_{cname} visits children through their own handlers", "children are dispatched (node.AcceptVisitor / v_Visit), so a nested block opens its own scope",
+                  f"`{unparse(byp[0])[:60] if byp else ''}` traverses the children of a child directly, bypassing that child's handler: a block inside does not get its own typing scope and its "
+                  "declarations stay visible in the enclosing construct (e.g. in a do-while condition)", CT, byp[0] if byp else m)
         for c, a in pushes:
             par = unparse(a.args[0]) if a.args else None
             col.check(par == f"{ctxn}[-1]", "R12.5", f"{CT}::v_{cname} scope parent", "the new scope's parent is the innermost scope ctx[-1]",
